@@ -1,7 +1,7 @@
 """C06 — concurrency limits, no leaked slot, at-most-once scheduling (DESIGN 5.6)."""
 from facts import AnalysisBroken
 from model import (dstr, strip, fact_holds, mentions_field, mentions_call, mentions_var,
-                   mentions_enum, const_value, walk)
+                   mentions_enum, const_value, walk, norm_cond)
 from props.scan_common import check_active_edges, check_midbuild_targets_scheduled
 from rules import (guarded, calls_to, field_writes, who_may_write, who_may_call, atom_cmp,
                    is_enum, is_var, is_field, has_field, anything, must_pass, basename)
@@ -21,14 +21,33 @@ def is_release(e):
 def jobserver_absent_edge(f):
     """edge_ok that follows only the 'jobserver is configured' side of tests on builder_ /
     jobserver_ (the pairing obligations are conditional on a jobserver being present)."""
+    def present(a):
+        a = strip(a)
+        return isinstance(a, dict) and (
+            (a.get('k') == 'mem' and a['n'] in ('Plan::builder_', 'RealCommandRunner::jobserver_'))
+            or (a.get('k') == 'call' and basename(a.get('name') or '') == 'get' and
+                mentions_field(a.get('recv'), 'Builder::jobserver_')))
+
+    def value(a):
+        """truth of a condition when a jobserver is configured (None: depends on something else)"""
+        at, pol = norm_cond(f.prog, a)
+        s = strip(at)
+        v = None
+        if present(s):
+            v = True
+        elif isinstance(s, dict) and s.get('k') == 'bin' and s.get('op') in ('&&', '||'):
+            l, r = value(s['l']), value(s['r'])
+            if s['op'] == '&&':
+                v = False if (l is False or r is False) else (True if (l and r) else None)
+            else:
+                v = True if (l or r) else (False if (l is False and r is False) else None)
+        return None if v is None else (v == pol)
+
     def ok(b, i, s):
         for key, pol, atom in f.edge_facts(b, i):
-            a = strip(atom)
-            if isinstance(a, dict) and (
-                    (a.get('k') == 'mem' and a['n'] in ('Plan::builder_', 'RealCommandRunner::jobserver_'))
-                    or (a.get('k') == 'call' and basename(a.get('name') or '') == 'get' and
-                        mentions_field(a.get('recv'), 'Builder::jobserver_'))):
-                return pol
+            v = value(atom)
+            if v is not None:
+                return v == pol
         return True
     return ok
 
@@ -517,7 +536,8 @@ def run(ctx):
               for k, pol, atom in wc_.edge_facts(b, i))]
     okq = bool(hf)
     for b, i, s2 in hf:
-        okq = okq and wc_.find_path(None, lambda x: x['k'] == 'call' and x.get('name') == 'SubprocessSet::DoWork', from_succ=s2) is None
+        okq = okq and wc_.find_path(None, lambda x: x['k'] == 'call' and x.get('name') == 'SubprocessSet::DoWork', from_succ=s2,
+                                    init_facts=frozenset((k, pol) for k, pol, atom in wc_.edge_facts(b, i))) is None
     ctx.check('C06.L1', okq, wc_.name, 'wait:blocks-with-queued-completion', wc_.loc,
               'with a finished command already queued the runner does not call DoWork() (which may block forever)')
     ctx.floor('C06.L1', 11)
